@@ -18,6 +18,14 @@ def with_latest_from_(
         ) -> list[SingleAssignmentDisposable]:
             values = [NO_VALUE for _ in children]
 
+            def on_error(error: Exception) -> None:
+                with parent.lock:
+                    observer.on_error(error)
+
+            def on_completed() -> None:
+                with parent.lock:
+                    observer.on_completed()
+
             def subscribechild(
                 i: int, child: Observable[Any]
             ) -> SingleAssignmentDisposable:
@@ -28,7 +36,7 @@ def with_latest_from_(
                         values[i] = value
 
                 subscription.disposable = child.subscribe(
-                    on_next, observer.on_error, scheduler=scheduler
+                    on_next, on_error, scheduler=scheduler
                 )
                 return subscription
 
@@ -44,7 +52,7 @@ def with_latest_from_(
                 subscribechild(i, child) for i, child in enumerate(children)
             ]
             disp = parent.subscribe(
-                on_next, observer.on_error, observer.on_completed, scheduler=scheduler
+                on_next, on_error, on_completed, scheduler=scheduler
             )
             parent_subscription.disposable = disp
 
